@@ -10,6 +10,7 @@
 //! tx
 //! <transactional protocol op>…
 //! endtx
+//! setbs 1 2 3 0          (a bare `setb` / `setbs` line: a public call running its own transaction(s))
 //! …
 //! thread
 //! …
@@ -57,7 +58,18 @@ impl Sess {
             Sess::D3(s) => s.step(toks),
         }
     }
+    /// one unit of work of a thread: a `tx … endtx` block, or (a bare `setb` / `setbs` line) a public call that runs its
+    /// own transaction(s)
     fn run_tx(&self, ops: &[Vec<String>]) -> String {
+        if ops.len() == 1 && CALL_OPS.contains(&ops[0][0].as_str()) {
+            let toks: Vec<&str> = ops[0].iter().map(String::as_str).collect();
+            let r = match self {
+                Sess::None => None,
+                Sess::D2(s) => s.run_call(&toks),
+                Sess::D3(s) => s.run_call(&toks),
+            };
+            return r.unwrap_or_else(|| "bad-op".into());
+        }
         match self {
             Sess::None => "bad-op".into(),
             Sess::D2(s) => s.run_tx(ops),
@@ -67,6 +79,9 @@ impl Sess {
 }
 
 type Tx = Vec<Vec<String>>;
+
+/// top-level protocol lines usable as a thread's unit of work (see `S2::run_call`)
+const CALL_OPS: &[&str] = &["setb", "setbs"];
 
 #[derive(Default)]
 struct Scenario {
@@ -223,6 +238,8 @@ impl Pool {
                     }
                     let Job { sh, tid, ntx, body } = slot.job.lock().unwrap().take().unwrap();
                     verif::install(Arc::new(ThreadHook { sh: sh.clone(), tid }));
+                    // a kernel's `retry()` really blocks / restarts under the scheduler
+                    attrs::REAL_RETRY.with(|f| f.set(true));
                     let r = catch_unwind(AssertUnwindSafe(|| {
                         let mut res = vec![];
                         if sh.start(tid) {
@@ -328,7 +345,7 @@ fn fingerprint(sess: &Sess) -> Option<String> {
 
 const FLAG_PRESERVING: &[&str] =
     &["link", "unlink", "sew", "unsew", "vid", "eid", "fid", "volid", "orbit", "beta", "isun", "rv", "wv", "xv", "ra", "wa", "xa",
-      "insv", "insvs", "fan", "fanconvex", "earclip"];
+      "insv", "insvs", "fan", "fanconvex", "earclip", "setb", "setbs", "swap", "cutin", "cutout", "ranchor", "wanchort", "xanchort"];
 
 type SnapCache = std::collections::HashMap<String, (String, String)>;
 
